@@ -162,6 +162,24 @@ impl Model {
         }
         id
     }
+    /// start from a foreign population (imggen's ground truth)
+    pub fn import(&mut self, parent: Nid, nodes: &[TNode]) {
+        for t in nodes {
+            let n = self.add(parent, &t.name_string(), t.is_dir, Ts::default());
+            {
+                let m = self.node_mut(n);
+                m.attr = t.attr;
+                m.created = t.created;
+                m.modified = t.modified;
+                m.accessed = t.accessed;
+            }
+            if t.is_dir {
+                self.import(n, &t.children);
+            } else if let Some(d) = &t.data {
+                *self.data_mut(n) = d.clone();
+            }
+        }
+    }
     pub fn detach(&mut self, n: Nid) {
         let p = self.node(n).parent;
         if let MKind::Dir(c) = &mut self.node_mut(p).kind {
